@@ -642,3 +642,163 @@ theorem play_qw2 (c d : Cfg) (h : QW2 c d) : QW2 (play c).1 d := by
   obtain ⟨fn, wf, aw, wk, k, hst, hw, hpc, hpk, hi⟩ := h.shape
   obtain ⟨f, hi', hio', hp⟩ := play_shape c
   exact h.frame f (by rw [hi']; exact hi) (hio' hio) hp
+
+/-! ### the tick in phase `QW2` -/
+
+def heldB (c : Cfg) : Bool :=
+  match c.paused with
+  | some pf => c.pfs[pf]? == some false
+  | none => false
+
+theorem heldB_iff (c : Cfg) : heldB c = true ↔ Held c := by
+  unfold heldB Held
+  constructor
+  · intro h
+    split at h
+    · rename_i pf hp
+      exact ⟨pf, hp, by simpa using h⟩
+    · cases h
+  · rintro ⟨pf, hp, hf⟩
+    rw [hp]
+    simp [hf]
+
+/-- the stepping task notices the interruption: it re-arms the wait (with the parked wake-up, if any) and ends the step, the
+pending pause taking effect -/
+def rearm (c : Cfg) : Cfg :=
+  match c.st with
+  | .waiting fn wf _ _ =>
+      match c.wfs[wf]? with
+      | some (.interrupted k) => wake c fn wf (.interrupted k)
+      | _ => c
+  | _ => c
+
+theorem wake_interrupted' (c : Cfg) (fn wf k f : Nat) (wk) (aw : List (Nat × Nat)) (hst : c.st = .waiting f wf wk aw)
+    (hi : c.interrupt ≠ none) :
+    wake c fn wf (.interrupted k) =
+      finally_ (dispatch { c with st := .waiting f c.wfs.length none aw, wfs := c.wfs ++ [wk.getD .pending] } none) := by
+  unfold wake; dsimp only; rw [hst]; dsimp only
+  simp only [if_true]
+  rw [endOfStep_unfold]
+  cases hint : c.interrupt with
+  | none => exact absurd hint hi
+  | some i =>
+    cases wk <;> simp only [prepare, Option.getD]
+
+theorem fuel0_succ : fuel0 = (fuel0 - 1) + 1 := rfl
+
+theorem tick_qw2 (P : Prog) (c d : Cfg) (h : QW2 c d) (hinv : InvP c) (hI : Inv c) :
+    (heldB (rearm c) = true → LagW (tickStepper P c) d) ∧
+    (heldB (rearm c) = false → tickDoneN P (fuel0 - 1) d = true → SL P (tickStepper P c) (tickStepper P d)) := by
+  obtain ⟨hstep, hpn, hk, hio⟩ := h.stepping
+  obtain ⟨fn, wf, aw, wk, k, hst, hw, hpc, hpk, hi⟩ := h.shape
+  have hts : tickStepper P c = loopHead P fuel0 (wake c fn wf (.interrupted k)) :=
+    tickStepper_wait_done P c fn wf wk aw (.interrupted k) hpc hst hw (by intro x; cases x)
+  have hre : rearm c = wake c fn wf (.interrupted k) := by
+    unfold rearm; rw [hst]; dsimp only; rw [hw]
+  have hwinv := wake_invP c fn wf (.interrupted k) hinv
+  rw [hts, hre]
+  rw [wake_interrupted' c fn wf k fn wk aw hst hi] at hwinv ⊢
+  -- the view
+  have hu := unint_int c fn wf wk aw k hst hw
+  have hv := h.view
+  rw [hu] at hv
+  obtain ⟨wf', w, _, hst', hcw, hdw, hni⟩ := hv.core.st.waiting_inv rfl
+  have hnw : w = wk.getD .pending := by
+    have : (setAt c.wfs wf (wk.getD .pending))[wf]? = some (wk.getD .pending) := setAt_self_get _ _ _ _ hw
+    have h2 : (setAt c.wfs wf (wk.getD .pending))[wf]? = some w := hcw
+    rw [this] at h2; cases h2; rfl
+  subst hnw
+  have hpd : d.pc = .awaitWaiting wf' := by
+    have := hv.pc
+    rw [show ({ c with st := SObj.waiting fn wf none aw, wfs := setAt c.wfs wf (wk.getD .pending) } : Cfg).pc = c.pc from rfl,
+      hpc] at this
+    obtain ⟨fn0, wk0, aw0, wf0, _, h2, h3⟩ := this
+    rw [hst'] at h2; cases h2; exact h3
+  have hdstep : d.stepping = true := by
+    have := (sh_fields hv.core.sh).1
+    rw [← this]; exact hstep
+  -- the re-armed configuration is related to `d`
+  have hcore : Core { c with st := .waiting fn c.wfs.length none aw, wfs := c.wfs ++ [wk.getD .pending] } d :=
+    ⟨hv.core.sh, Or.inr ⟨fn, c.wfs.length, aw, wf', wk.getD .pending, rfl, hst', by simp, hdw, hni⟩,
+      hv.core.ckill, hv.core.dint, hv.core.dpaused⟩
+  have he := endRel_of c d _ d none none hcore (hio.of_eq rfl rfl) (Or.inl ⟨rfl, rfl⟩) rfl rfl
+  have hm := mid_of_end he (by intro e he; rw [hpc] at he; cases he) (by intro e he; rw [hpd] at he; cases he)
+  have hlive : terminal d.st.label = false := by rw [hst']; simp [SObj.label, terminal, allowed]
+  have hlivec : terminal c.st.label = false := by rw [hst]; simp [SObj.label, terminal, allowed]
+  have hcl : d.closed = false := by
+    have h1 : c.closed = false := not_closed_of_live hI hlivec
+    have h2 := (sh_fields hv.core.sh).2.2.2.1
+    rw [← h2]; exact h1
+  have he' : finally_ (dispatch d none) = { d with stepping := false, interrupt := none } := by
+    rw [dispatch_d d none hv.core.dint hlive]
+    unfold transOpt finally_ setInterrupt
+    simp only [hv.core.dint]
+  rw [he'] at hm
+  -- `d` is its predecessor with the stepping flag set again
+  have hdeq : ({ ({ d with stepping := false, interrupt := none } : Cfg) with stepping := true, pc := .awaitWaiting wf' } : Cfg) = d := by
+    cases d
+    simp only at hdstep hpd
+    have hdi := hv.core.dint
+    simp only at hdi
+    subst hdstep hpd hdi
+    rfl
+  have hdeq2 : ({ ({ d with stepping := false, interrupt := none } : Cfg) with stepping := true } : Cfg) = d := by
+    cases d
+    simp only at hdstep
+    have hdi := hv.core.dint
+    simp only at hdi
+    subst hdstep hdi
+    rfl
+  -- the state of the run with pauses after the re-arm
+  generalize hE : finally_ (dispatch { c with st := .waiting fn c.wfs.length none aw, wfs := c.wfs ++ [wk.getD .pending] } none) = e
+    at hm hwinv he ⊢
+  have hest : ∃ wfe, e.st = .waiting fn wfe none aw ∧ e.wfs[wfe]? = some (wk.getD .pending) := by
+    rcases hm.core.st with ⟨heq, hnw⟩ | ⟨fn0, wfe, aw0, wf0, w0, h1, h2, h3, h4, _⟩
+    · exact absurd (heq.trans hst') (hnw _ _ _ _)
+    · have h2' : d.st = .waiting fn0 wf0 none aw0 := h2
+      rw [hst'] at h2'; cases h2'
+      have h4' : d.wfs[wf']? = some w0 := h4
+      rw [hdw] at h4'; cases h4'
+      exact ⟨wfe, h1, h3⟩
+  obtain ⟨wfe, hest, hewf⟩ := hest
+  have hlivee : terminal e.st.label = false := by rw [hest]; simp [SObj.label, terminal, allowed]
+  have hcle : e.closed = false := by
+    have := (sh_fields hm.core.sh).2.2.2.1
+    rw [this]; exact hcl
+  have hd0st : ({ d with stepping := false, interrupt := none } : Cfg).st = .waiting fn wf' none aw := hst'
+  constructor
+  · intro hh
+    obtain ⟨pf, hp, hf⟩ := (heldB_iff e).mp hh
+    rw [fuel0_succ, loopHead_held P _ e hm.ncc hlivee hcle pf hp hf]
+    have hm' : Mid { e with pc := .awaitPaused pf } { d with stepping := false, interrupt := none } :=
+      ⟨⟨hm.core.sh, hm.core.st, hm.core.ckill, hm.core.dint, hm.core.dpaused⟩, hm.int, hm.stepping,
+        (by intro x hx; cases hx), hm.ncd⟩
+    have := inStep_onWait_intro _ _ hm' fn wfe wf' none aw hest hd0st
+    rw [hdeq] at this
+    exact ⟨rfl, by show isWaiting e.st = true; rw [hest]; rfl, hm.stepping, hm.int, this⟩
+  · intro hh hD
+    have hnh : ¬ Held e := by
+      intro hx
+      rw [(heldB_iff e).mpr hx] at hh; cases hh
+    have hpe : e.paused = none := by
+      cases hpa : e.paused with
+      | none => rfl
+      | some pf => exact absurd ⟨pf, hpa, hwinv.pausedPending hlivee pf hpa⟩ hnh
+    rw [fuel0_succ, loopHead_go P _ e hm.ncc hlivee hcle hnh]
+    by_cases hwp : wk.getD .pending = .pending
+    · rw [hwp] at hewf hdw
+      rw [stepBodyK_waiting_pending P _ e fn wfe none aw hest hewf, tickStepper_wait_pending P d wf' hpd hdw,
+        ← onWait_eq_of_paused_none e fn wfe none aw hest hpe]
+      have := inStep_onWait_intro _ _ hm fn wfe wf' none aw hest hd0st
+      rw [hdeq] at this
+      exact Or.inl this
+    · rw [stepBodyK_waiting_done P _ e fn wfe none aw _ hest hewf hwp,
+        tickStepper_wait_done P d fn wf' none aw _ hpd hst' hdw hwp]
+      rw [tickDoneN_wait_done P _ d fn wf' none aw _ hpd hst' hdw hwp] at hD
+      rw [(loop_mono_le P _ _ hD fuel0 (by unfold fuel0; omega)).2]
+      have hc2 := core_stepping _ _ true hm.core
+      rw [hdeq2] at hc2
+      have he2 := wake_core { e with stepping := true } d fn wfe wf' _ hc2 (IntOk.of_none hm.int) hni hwp
+      exact loopHead_sim P (fuel0 - 1) (fuel0 - 1) _ _ (Nat.le_refl _) (by unfold fuel0; omega)
+        (mid_of_end he2 hm.ncc (by intro x hx; rw [hpd] at hx; cases hx))
+        (wake_invP _ _ _ _ (hwinv.same ⟨rfl, rfl, rfl, rfl⟩)) hD
